@@ -200,7 +200,7 @@ def check_C12(ctx):
 
 # --------------------------------------------------------------------------- C08
 
-C08_LAWS = ["RangeLaw", "IndexLaw", "SizeFirstLast", "MapSizeFallback", "NilPropagates", "StrictOnlyFinal", "PipelineIsSequential",
+C08_LAWS = ["RangeLaw", "NamesLaw", "IndexLaw", "SizeFirstLast", "MapSizeFallback", "NilPropagates", "StrictOnlyFinal", "PipelineIsSequential",
             "BadIsError"]
 
 
@@ -332,10 +332,12 @@ def check_C20(ctx):
 
 ALPHA8 = "{123, 125, 37, 45, 34, 32, 10, 97}"
 ALPHA6 = "{123, 125, 37, 45, 32, 97}"
+ALPHA_BOM = "{239, 187, 191, 123, 125, 37, 10}"
 
 
 def check_C05(ctx):
-    runs = [(5, ALPHA8)] if ctx.quick else [(6, ALPHA8), (7, ALPHA6)]
+    # (the last alphabet: the three bytes of a byte order mark next to the delimiters)
+    runs = [(5, ALPHA8), (4, ALPHA_BOM)] if ctx.quick else [(6, ALPHA8), (7, ALPHA6), (5, ALPHA_BOM)]
     inv = ["PartitionSoFar", "LinesSoFar", "NoEmptyTokens", "IdentityAtEnd", "AgreesWithFunction", "TextIsMaximal", "EmitCase"]
     seen = set()
     for L, alpha in runs:
@@ -379,9 +381,19 @@ def check_C06(ctx):
     n = 4 if ctx.quick else 5
     cases, _ = ctx.tlc_mc("MC_C06", mc_cfg({"N": n}, ["AcceptanceLaw", "RejectionIsFinal", "StackDepth", "FunctionAgrees", "EmitCase"]),
                           timeout=3000, heap="24g")
-    ctx.validate(ctx.run_cases(cases), module="TraceC06", nontrivial_key=lambda o: o["text"], chunk=20000)
+    def styled(cs):
+        """each case once more under another spelling of its tags and objects (glued, hyphenated, spread over lines)"""
+        out = []
+        for k, c in enumerate(cs):
+            c2 = dict(c)
+            c2["style"] = k % 7 + 1
+            c2["id"] = "%s~s%d" % (c["id"], c2["style"])
+            out.append(c2)
+        return cs + out
+
+    ctx.validate(ctx.run_cases(styled(cases)), module="TraceC06", nontrivial_key=lambda o: o["text"], chunk=20000)
     gen = ctx.gen("nesting", 2000 if ctx.quick else 60000)
-    ctx.validate(ctx.run_cases(gen), module="TraceC06", nontrivial_key=lambda o: o["text"], chunk=20000)
+    ctx.validate(ctx.run_cases(styled(gen)), module="TraceC06", nontrivial_key=lambda o: o["text"], chunk=20000)
     ctx.exhaustive = False
     return finish(ctx, rule="MC_C06: the parser machine over every token-class sequence of <= %d tokens from the 22-class alphabet "
                             "(extension stops at rejection), compared in every state with an independent recursive-descent "
@@ -479,12 +491,14 @@ def session_events(obs_list, tag=""):
             eid = "%s#%d%s" % (o["id"], ev["i"], tag)
             index[eid] = (o, ev)
             e = {"id": eid, "sid": str(o["id"]), "t": ev["t"], "b": ev["b"], "entry": ev["entry"],
-                 "prog": o["templates"][ev["t"]], "env": o["envabs"][ev["b"]], "before": ev["before"], "after": ev["after"],
+                 "prog": o["templates"][ev["t"]], "env": o["envabs"][ev["b"]], "before": ev["before"], "after": ev["after"], "beforesig": ev.get("beforesig", ""), "aftersig": ev.get("aftersig", ""),
                  "outcome": ev["outcome"], "out": ev.get("out", [])}
             if ev["outcome"] == "error":
                 e["msg"] = re.sub(r"/tmp/lqh\d+", "<tmp>", ev.get("msg", ""))
             if ill_formed(e["prog"]):
                 e["illformed"] = True
+            if o.get("noref"):
+                e["noref"] = True
             if o.get("anyorder"):
                 e["anyorder"] = o["anyorder"]
             if o.get("cache"):
